@@ -17,8 +17,10 @@ import PrysmVerif.Lemmas.C07Gen
    kernel re-checks them; `(N,1)` is shown to raise / alias / mis-shape for 2-D / N×… / 0-D coordinates.
 4. `xy_seq` takes its monomials from a family whose order-0 member is 1 (generated from the source).
 5. the bodies of `jacobi_seq`, `hermite_He_seq`, `hermite_H_seq`, `hermite_He_der_seq`, `hermite_H_der_seq`, `laguerre_seq`,
-   `dickson1_seq`, `dickson2_seq` translated statement by statement from the current source (`Generated.C08.*Seq`):
+   `dickson1_seq`, `dickson2_seq`, `Qbfs_seq` translated statement by statement from the current source (`Generated.C08.*Seq`):
    each returns `ns.map` of the translated single-order function, for every non-empty strictly ascending `ns`.
+6. structural facts read off the source: no dtype-blind cache reachable from a `*_seq`; no in-place operation on a parameter
+   (or a possible alias of one) in any function of the polynomial modules.
 -/
 set_option linter.unusedTactic false
 set_option linter.unreachableTactic false
@@ -181,6 +183,12 @@ theorem wrapper_seq_params (n : ℕ) (x : K) :
     under a key that omits the array's dtype (read off the source: writes to module-level containers reachable from the `*_seq`
     functions); together with `seq_rows_hold_floats` this is the static side of "the answer does not depend on earlier calls" -/
 theorem seq_no_dtype_blind_cache : Generated.C08.seqRoutinesHaveNoDtypeBlindCache = true := by decide
+
+/-- **arguments are inputs**: no function of `prysm/polynomials/*.py` applies an in-place operation (augmented assignment, item / slice
+    store, mutating method, ufunc `out=`) to one of its parameters or to a possible alias of one (`np.asarray(p)`, a view, `p.T`, …),
+    the documented output buffers `alphas` / `out` excepted (read off the source) — so the caller's container of orders and the
+    coordinate arrays hold the same values after a `*_seq` call as before, and a second call with the same objects sees the same input -/
+theorem routines_leave_arguments_untouched : Generated.C08.polynomialRoutinesLeaveArgumentsUntouched = true := by decide
 
 /-- **rows are never truncated**: whatever the kind of the coordinate dtype (bool, int, float, complex), the `out` array of every
     value `*_seq` can hold floating-point values (read from the `dtype=` of each allocation in the source) -/
@@ -704,6 +712,59 @@ theorem der_seq_code_eq_map_scalar_code (ns : List Nat) (hne : ns ≠ []) (hpw :
   constructor
   · rw [gen_hermiteHeDerSeq ns hne hpw]; simp [e1]
   · rw [gen_hermiteHDerSeq ns hne hpw]; simp [e2]
+
+/-- the statement-by-statement translation of `Qbfs_seq` (running index, conditional row writes, early returns, loop) returns
+    `ns.map` of the model's single-order value for EVERY non-empty strictly ascending `ns` -/
+theorem gen_qbfsSeq (ns : List Nat) (hne : ns ≠ []) (hpw : ns.Pairwise (· < ·)) (sqrt : K → K) (x : K) :
+    Generated.C08.qbfsSeq sqrt ns x = some (ns.map fun n => qbfs sqrt n x) := by
+  first
+  | (show Model.C08.sweep _ _ = _; rw [C08L.sweep_eq_map _ ns hne hpw]; congr 1; apply List.map_congr_left; intro n _; simpa using qbfsRec_eval sqrt x n)
+  | (
+      unfold Generated.C08.qbfsSeq
+      simp only [ofInt_eq, ofFrac_eq, Int.cast_one, Int.cast_zero, Int.cast_ofNat, Nat.cast_ofNat, npow_eq]
+      set ev : Nat → K := fun n => qbfs sqrt n x with hev
+      have E0 : x ^ 2 * (1 - x ^ 2) = ev 0 := by simp [hev, qbfs, qbfsPQ, pow_two]
+      have E1 : 1 / sqrt 19 * (13 - 16 * x ^ 2) * (x ^ 2 * (1 - x ^ 2)) = ev 1 := by simp [hev, qbfs, qbfsPQ, C07L.qbfsPQ_step, pow_two]
+      have h := RInv_zero ns ev
+      generalize hst : (ite (ns[0]? = some 0) _ _ : Rows K × Nat) = st
+      have h : RInv ns ev (0+1) st.1 st.2 := by rw [← hst]; exact RInv_step ns hpw ev 0 _ _ _ (by exact E0) h
+      obtain ⟨out0, k0⟩ := st
+      simp only [] at h ⊢
+      split
+      · exact RInv_done ns ev (0+1) out0 k0 h ‹_›
+      generalize hst : (ite (ns[k0]? = some 1) _ _ : Rows K × Nat) = st
+      have h : RInv ns ev (1+1) st.1 st.2 := by rw [← hst]; exact RInv_step ns hpw ev 1 _ _ _ (by exact E1) h
+      obtain ⟨out1, k1⟩ := st
+      simp only [] at h ⊢
+      split
+      · exact RInv_done ns ev (1+1) out1 k1 h ‹_›
+      refine RInv_finish ns ev (2 + ((lastOrder ns + 1) - 2).toNat) _ _ (forRange_induct'
+        (fun m s => RInv ns ev (2 + m) (Generated.C08.qbfsSeq_st_out s) (Generated.C08.qbfsSeq_st_min_i s) ∧ Generated.C08.qbfsSeq_st_Pnm2 s = (qbfsPQ sqrt (x*x) m).1 ∧ Generated.C08.qbfsSeq_st_Pnm1 s = (qbfsPQ sqrt (x*x) m).2.1 ∧ Generated.C08.qbfsSeq_st_Qnm2 s = (qbfsPQ sqrt (x*x) m).2.2.1 ∧ Generated.C08.qbfsSeq_st_Qnm1 s = (qbfsPQ sqrt (x*x) m).2.2.2)
+        2 (lastOrder ns + 1) _ _ ?_ ?_).1 ?_
+      · exact ⟨h, by simp [qbfsPQ], by simp [qbfsPQ, pow_two], by simp [qbfsPQ], by simp [qbfsPQ, pow_two]⟩
+      · rintro m s ⟨hs, h1, h2, h3, h4⟩
+        dsimp only [Generated.C08.qbfsSeq_st_out, Generated.C08.qbfsSeq_st_min_i, Generated.C08.qbfsSeq_st_Pnm2, Generated.C08.qbfsSeq_st_Pnm1, Generated.C08.qbfsSeq_st_Qnm2, Generated.C08.qbfsSeq_st_Qnm1] at hs h1 h2 h3 h4 ⊢
+        have hi : (2 + (m:ℤ)).toNat = 2 + m := by omega
+        simp only [hi]
+        have eg : qbfsGi sqrt (2 + (m:ℤ) - 1) = qbfsG sqrt (m+1) := by simp only [qbfsGi]; congr 1; omega
+        have eh : qbfsHi sqrt (2 + (m:ℤ) - 2) = qbfsH m (qbfsF sqrt m) := by
+          have : (2 + (m:ℤ) - 2).toNat = m := by omega
+          simp only [qbfsHi, this]
+        have ef : qbfsFi sqrt (2 + (m:ℤ)) = qbfsF sqrt (m+2) := by simp only [qbfsFi]; congr 1; omega
+        refine ⟨RInv_step ns hpw ev (2+m) _ _ _ (by rw [h2, h3, h4, h1]; simp only [hev, qbfs]; rw [show 2 + m = (m+1) + 1 by omega, C07L.qbfsPQ_step sqrt (x*x) (m+1)]; simp only [C07L.qbfsPQ_step sqrt (x*x) m, eg, eh, ef, pow_two, nat_eq, Nat.cast_one]) hs, ?_, ?_, ?_, ?_⟩
+        · rw [h2, C07L.qbfsPQ_step]
+        · rw [h1, h2, C07L.qbfsPQ_step]; simp only [pow_two]
+        · rw [h4, C07L.qbfsPQ_step]
+        · rw [h1, h2, h3, h4, C07L.qbfsPQ_step]; simp only [eg, eh, ef, pow_two]
+      · intro a ha
+        have := le_lastOrder ns hpw a ha
+        omega)
+
+/-- `Qbfs_seq` as written in the source returns, for every non-empty strictly ascending `ns`, the list of the values of the TRANSLATED
+    scalar `Qbfs` (C07's `Generated.C07.qbfs`), any `sqrt` -/
+theorem qbfs_seq_code_eq_map_scalar_code (ns : List Nat) (hne : ns ≠ []) (hpw : ns.Pairwise (· < ·)) (sqrt : K → K) (x : K) :
+    Generated.C08.qbfsSeq sqrt ns x = some (ns.map fun (n : ℕ) => Generated.C07.qbfs sqrt (n:ℤ) x) := by
+  rw [gen_qbfsSeq ns hne hpw sqrt x]; simp [C07L.gen_qbfs]
 
 end translated_seq
 
